@@ -58,6 +58,7 @@ def main():
         finally:
             run(["git", "-C", "/repo", "checkout", "--", "."])
     run([os.path.join(VERIF, "setup.sh")], cwd=VERIF)
+    run(["git", "-C", VERIF, "checkout", "--", "evidence"])
     print("\n%-28s %-5s %s" % ("seed", "check", "result"))
     for r in rows:
         print("%-28s %-5s %s" % r)
